@@ -99,11 +99,21 @@ print(json.dumps(res))
 """
 
 
-def collision_trees():
+DIR_CLASH = {("Client", "net"), ("Server", "net"), ("Server", "pub")}  # a module would shadow a sibling directory
+KNOWN_BAD_REF = ("ref:map_uses_net-client", "ref:map_uses_net-server", "ref:net_uses_net-client", "ref:net_uses_net-server")
+
+
+def collision_trees(tier="thorough"):
+    """A struct whose module name equals a documented leaf name, in every directory where that is not degenerate."""
+    names = ("Data", "Encrypt", "Protocol", "Map", "Net", "Pub", "Client", "Server")
     out = []
-    for name, d in (("Data", "net"), ("Encrypt", "net"), ("Protocol", "net"), ("Map", "net"), ("Pub", "net"),
-                    ("Client", "map"), ("Server", "map"), ("Net", "pub")):
-        out.append((f"collide:{name}@{d}", {d: [struct(name, [field("v", "char")])]}, 1))
+    for i, name in enumerate(names):
+        for j, d in enumerate(specs.FILES):
+            if (name, d) in DIR_CLASH:
+                continue
+            if tier == "quick" and not ((i + j) % 4 == 0 or (name, d) in (("Client", "net/server"), ("Server", "net/client"), ("Data", "net"), ("Protocol", "net"))):
+                continue
+            out.append((f"collide:{name}@{d}", {d: [struct(name, [field("v", "char")])]}, 1))
     return out
 
 
@@ -172,8 +182,9 @@ def judge_reports(name, reports):
 
 def run(tier, seed):
     loader.install_shims()
-    # the directory-reference matrix ("ref:*" trees) is C18's: whether such a package imports completely at all
-    tl = [t for t in trees.all_trees(tier) if not t[0].startswith("ref:")] + collision_trees()
+    # 
+    # the four reference directions that do not import completely are C18's known findings; nothing can be resolved there
+    tl = [t for t in trees.all_trees(tier) if t[0] not in KNOWN_BAD_REF] + collision_trees(tier)
     res = par.pmap(run_tree, [(n, f, nf, tier) for n, f, nf in tl])
     violations, total, names_checked = [], 0, 0
     for name, nfirst, errs, reports in res:
